@@ -258,6 +258,10 @@ def _merge(
     }
     for ct in fields2.domain.cell_types:
         mapped_connectivity = make_array(fields2.domain.connectivity(ct))
+        if mapped_connectivity.dtype.kind in "iu" and mapped_connectivity.dtype.itemsize < 8:
+            # the merged point indices may exceed the range of a narrow index type
+            is_wide = ct in cells_dict and cells_dict[ct].dtype.kind in "iu" and cells_dict[ct].dtype.itemsize == 8
+            mapped_connectivity = mapped_connectivity.astype(cells_dict[ct].dtype if is_wide else int)
         for cell_idx, cell_corners in enumerate(mapped_connectivity):
             mapped_connectivity[cell_idx] = points2_map[cell_corners]
         if ct in cells_dict:
